@@ -171,6 +171,8 @@ class Skeleton:
                     nt = True
                 if e[0] == "call" and e[1].endswith("::split_at") and len(e[2]) == 2 and self.data_driven(("struct", "RangeTo", (("end", e[2][1]),))):
                     nt = True
+                if e[0] == "call" and pathsum.is_slice_get(("call",) + tuple(e[1:])) and self.data_driven(e[2][1]):
+                    nt = True
             v = self.exit_result(x)
             if v is None:
                 continue
@@ -305,15 +307,15 @@ class Skeleton:
                 return {"soft"}
             if e[1] == PE + "FatalError":
                 return {"fatal"}
-        if e[0] == "from":
-            inner, fty, tty = e[1], e[2], e[3]
-            if fty == ERRT and tty == PET:
-                if inner[0] == "ctor":
-                    return {"fatal"} if inner[1].endswith("::UndefinedHeader") else {"soft"}
-                return {"soft", "fatal"}
-            if tty == PET and ("Utf8Error" in fty or "ParseIntError" in fty or fty == "()"):
-                return {"soft"}
-            return set(ALL_KINDS)
+        if e[0] == "from" or (e[0] == "call" and e[1].split("::")[-1] in ("into", "from") and len(e[2]) == 1):
+            # the conversion is read from the library's own From impl (its path summaries), not assumed
+            vals = ctx.canon_conv(self.lib, e, PET)
+            if vals is None or any(v[0] != "ctor" or not v[1].startswith(PE) for v in vals):
+                return set(ALL_KINDS)
+            ks = set()
+            for v in vals:
+                ks |= self.err_kinds(v, x, ps)
+            return ks
         if e[0] == "payload" and e[2] == ERR:
             a = self.app(e[1], ps)
             if a is not None:
@@ -387,7 +389,7 @@ class Skeleton:
                         if self.app(("call",) + tuple(e[1:]), f["ps"]) is not None:
                             continue
                         nm = e[1].split("::")[-1]
-                        if nm in ("len", "is_empty", "split_at", "split_at_checked") or e[1] in self.fns:
+                        if nm in ("len", "is_empty", "split_at", "split_at_checked") or e[1] in self.fns or pathsum.is_slice_get(("call",) + tuple(e[1:])):
                             continue   # span arithmetic, end-of-input tests (judged by C12-I) and slicing are not peeks at bytes
                         for a in e[2]:
                             if self._is_input_slice(a, f, x):
